@@ -105,13 +105,16 @@ class Ctx:
     def _tlc(self, module, cfg, workers, timeout, extra=None, env=None, stdout_file=None, heap=None):
         meta = os.path.join(self.out, "tlc-" + cfg.replace(".cfg", ""))
         shutil.rmtree(meta, ignore_errors=True)
-        cmd = ["java", "-XX:+UseParallelGC"]
+        jtmp = os.path.join(self.out, "jtmp")       # TLC leaves a tlc-* directory in java.io.tmpdir per run: keep it out of /tmp
+        os.makedirs(jtmp, exist_ok=True)
+        cmd = ["java", "-XX:+UseParallelGC", "-Djava.io.tmpdir=" + jtmp]
         if heap:
             cmd.append("-Xmx" + heap)
         cmd += ["-cp", JAR, "tlc2.TLC", "-workers", str(workers), "-metadir", meta, "-cleanup",
                 "-noGenerateSpecTE", "-config", cfg] + (extra or []) + [module]
         rc, out, dt = sh(cmd, timeout=timeout, cwd=self.flat, env=env, stdout_file=stdout_file)
         shutil.rmtree(meta, ignore_errors=True)
+        shutil.rmtree(jtmp, ignore_errors=True)
         return rc, out, dt
 
     def mc(self, name, workers=8, timeout=1500, expect_actions=None, cfg=None):
